@@ -62,14 +62,49 @@ def own_yields(body):
 COVERED_STMTS = (ast.If, ast.With, ast.AsyncWith, ast.Try, ast.For, ast.AsyncFor, ast.While)
 
 
+def first_yield_in_expr(e):
+    """the first yield / yield from the analyzer's expression walk reaches: the expression itself or one in
+    expression position; lambdas, comprehensions, assignment expressions and f-strings are not entered"""
+    if e is None:
+        return None
+    if isinstance(e, (ast.Yield, ast.YieldFrom)):
+        return e
+    def first(es):
+        for x in es:
+            y = first_yield_in_expr(x)
+            if y is not None:
+                return y
+        return None
+    if isinstance(e, ast.Call):
+        return first([e.func] + list(e.args) + [k.value for k in e.keywords])
+    if isinstance(e, ast.Attribute): return first_yield_in_expr(e.value)
+    if isinstance(e, ast.BinOp): return first([e.left, e.right])
+    if isinstance(e, ast.UnaryOp): return first_yield_in_expr(e.operand)
+    if isinstance(e, ast.Compare): return first([e.left] + list(e.comparators))
+    if isinstance(e, ast.Subscript): return first([e.value, e.slice])
+    if isinstance(e, (ast.List, ast.Tuple, ast.Set)): return first(e.elts)
+    if isinstance(e, ast.Dict): return first([k for k in e.keys if k is not None] + list(e.values))
+    if isinstance(e, ast.Await): return first_yield_in_expr(e.value)
+    if isinstance(e, ast.BoolOp): return first(e.values)
+    if isinstance(e, ast.IfExp): return first([e.test, e.body, e.orelse])
+    if isinstance(e, ast.Starred): return first_yield_in_expr(e.value)
+    if isinstance(e, ast.Slice): return first([x for x in (e.lower, e.upper, e.step) if x is not None])
+    return None
+
+
 def covered_yields(body):
-    """the yields both visitors of the implementation reach: expression statements `yield …` nested only in
-    if / with / try (all parts) / for / while and their async forms — in traversal (= source) order"""
+    """the yields both visitors of the implementation reach: `yield …` as a statement or in expression position
+    of an expression statement, an assignment's or a return's value, nested only in if / with / try (all parts) /
+    for / while and their async forms — in traversal (= source) order"""
     out = []
     def stmts(ss):
         for s in ss:
-            if isinstance(s, ast.Expr) and isinstance(s.value, (ast.Yield, ast.YieldFrom)):
-                out.append(s.value)
+            y = None
+            if isinstance(s, ast.Expr): y = first_yield_in_expr(s.value)
+            elif isinstance(s, (ast.Assign, ast.AugAssign)): y = first_yield_in_expr(s.value)
+            elif isinstance(s, (ast.AnnAssign, ast.Return)): y = first_yield_in_expr(s.value)
+            if y is not None:
+                out.append(y)
             elif isinstance(s, COVERED_STMTS):
                 for fld in ("body", "handlers", "orelse", "finalbody"):
                     sub = getattr(s, fld, None)
